@@ -6,6 +6,8 @@
 
 KIT_C_BEGIN
 sexp sexp_bignum_add_fixnum (sexp ctx, sexp a, sexp b);
+sexp sexp_bignum_add_digits (sexp ctx, sexp dst, sexp a, sexp b);
+sexp sexp_bignum_sub_digits (sexp ctx, sexp dst, sexp a, sexp b);
 KIT_C_END
 
 #define OP_ADD 1        /* sexp_bignum_add(ctx, dst, a, b)        */
@@ -22,6 +24,9 @@ KIT_C_END
 #define OP_GSUB 12      /* generic sexp_sub                         */
 #define OP_GCMP 13      /* generic sexp_compare                     */
 #define OP_COPY 14      /* sexp_copy_bignum                         */
+
+#define OP_ADDD 15      /* sexp_bignum_add_digits on magnitudes whose top word is non-zero (lengths concrete) */
+#define OP_SUBD 16      /* sexp_bignum_sub_digits likewise */
 
 #ifndef AK
 #define AK 1
@@ -164,6 +169,21 @@ void harness(void) {
   sexp r = sexp_compare(ctx, a, b);
   KIT_ASSERT(sexp_fixnump(r), "compare returns a fixnum");
   KIT_ASSERT((sexp_unbox_fixnum(r) < 0) == (va < vb) && (sexp_unbox_fixnum(r) > 0) == (va > vb), "sexp_compare orders exact integers");
+#endif
+  KIT_ASSERT(wide_of(a) == va && wide_of(b) == vb, "operands unchanged");
+#elif OP == OP_ADDD || OP == OP_SUBD
+  sexp a = kit_any_bignum(AK, 1), b = kit_any_bignum(BK, 1);
+  __CPROVER_assume(sexp_bignum_data(a)[AK-1] != 0 && sexp_bignum_data(b)[BK-1] != 0);
+  sexp_bignum_sign(a) = 1; sexp_bignum_sign(b) = 1;
+  wide va = wide_of(a), vb = wide_of(b);
+#if OP == OP_ADDD
+  sexp r = sexp_bignum_add_digits(ctx, NULL, a, b);
+  sexp_bignum_sign(r) = 1;
+  KIT_ASSERT(wide_of(r) == va + vb, "add_digits adds the magnitudes");
+#else
+  sexp r = sexp_bignum_sub_digits(ctx, NULL, a, b);
+  sexp_bignum_sign(r) = 1;
+  KIT_ASSERT(wide_of(r) == (va >= vb ? va - vb : vb - va), "sub_digits yields the absolute difference of the magnitudes");
 #endif
   KIT_ASSERT(wide_of(a) == va && wide_of(b) == vb, "operands unchanged");
 #elif OP == OP_COPY
